@@ -173,7 +173,8 @@ impl Storm {
             let m = w.add_mint(decimals, if k % 3 == 2 { TokKind::T22 } else { TokKind::Classic }).await;
             let ai: f64 = pick(&mut r, &[0.0, 0.5, 0.8, 0.9, 1.0]);
             let am: f64 = (ai + pick(&mut r, &[0.0f64, 0.05, 0.1])).min(1.0).max(ai);
-            let deposit_limit = if r.gen_bool(0.3) { fund.saturating_mul(pick(&mut r, &[1u64, 3])) } else { u64::MAX };
+            // some caps are small enough to be reached by the storm's deposits
+            let deposit_limit = if r.gen_bool(0.4) { pick(&mut r, &[fund / 4096, fund / 64, fund, fund.saturating_mul(3)]) } else { u64::MAX };
             let init_limit = if r.gen_bool(0.2) { pick(&mut r, &[1000u64, 1_000_000]) } else { 0 };
             let max_age = pick(&mut r, &[30u16, 60, 600, 65535]);
             let max_conf = pick(&mut r, &[0u32, u32::MAX / 10, u32::MAX]);
